@@ -165,7 +165,7 @@ def gen_plan(S, index, tier):
             c['own_lists'] = 'reuse' in faults and S.coin(0.6)
             via = (frs[0] if S.coin(0.7) else S.pick(frs)) if frs and S.coin(0.8) else 'direct'
             ev = {'act': 'frag', 'via': via, 'cfg': c, 'mono': S.coin(0.7), 'out': f'R{nres}', 'sel': S.randint(0, 10 ** 6),
-                  'client': S.randint(0, 1), 'pep': S.pick(peps)}
+                  'client': S.randint(0, 1), 'pep': S.pick(peps), 'late_read': 'scribble' in faults and S.coin(0.3)}
             nres += 1
             events.append(ev)
             if S.coin(0.35) and c['return_type'] != 'fragment':
@@ -450,6 +450,16 @@ def _kwargs(run, cfg):
                 return_type=cfg['return_type'], precision=cfg['precision'])
 
 
+def _no_parent(nf):
+    """a dump without Fragment.parent_sequence (the back-reference to the caller's annotation, which the caller has
+    just edited on purpose)"""
+    if isinstance(nf, list):
+        if len(nf) == 2 and nf[0] == 'frag' and isinstance(nf[1], dict):
+            return ['frag', {k: v for k, v in nf[1].items() if k != 'parent_sequence'}]
+        return [_no_parent(x) for x in nf]
+    return nf
+
+
 def _do_frag(run, ev_i, ev):
     pt = Env.pt
     out = run.out
@@ -485,7 +495,20 @@ def _do_frag(run, ev_i, ev):
         return run.violation('POISON', 'fragment', 'no-error',
                              f"POISON: fragment returned {len(res)} ions for a peptide with unresolvable modification "
                              f"{poisoned}", ev_i)
-    nres = N.norm(res)
+    if ev.get('late_read') and not poisoned:
+        # the client edits its peptide AFTER the call has returned and only then looks at the ions it was given: they
+        # describe the peptide that was fragmented (whatever the library computes on first access must not read the
+        # caller's annotation as it is now).  The peptide is put back right after the look.
+        try:
+            run.a.pop_internal_mods()
+            run.a.add_nterm_mods([pt.Mod('LateEdit', 1)], append=True)
+            run.a.charge = 5
+            nres = _no_parent(N.norm(res))
+        finally:
+            world.restore(run.a, run.a_nf)
+        out.faults['late_read'] += 1
+    else:
+        nres = N.norm(res)
     out.record([ev_i, nres])
     run.results[ev['out']] = res
     opname = 'Fragmenter.fragment' if via != 'direct' else 'fragment'
@@ -505,7 +528,10 @@ def _do_frag(run, ev_i, ev):
     finally:
         random.setstate(st)
     out.oracle_checks += 1
-    d = N.same(nres, N.norm(ref))
+    nref = N.norm(ref)
+    if ev.get('late_read') and not poisoned:
+        nref = _no_parent(nref)
+    d = N.same(nres, nref)
     if d is not None:
         import re as _re
         det = _re.sub(r'\[[^\]]*\]', '', str(d).split(':')[0]).strip('.') or 'value'
